@@ -9,6 +9,7 @@
 -/
 import SmrtVerif.Model.TheoryLimits
 import SmrtVerif.Proofs.TheoryLimits
+import SmrtVerif.Proofs.Romberg
 
 namespace Smrt.Props.C11
 open Smrt Smrt.TheoryLimits Filter Topology
@@ -52,6 +53,27 @@ theorem iba_static_dilute (p k0 f r : ℝ) (e0 eps : Cx ℝ) (hp : p ≠ 0) (hs 
     show Cx.smul _ (Cx.smul _ (Cx.mul _ _)) = _
     simp only [Cx.smul, Cx.mul, Cx.abs2, Cx.mk.injEq]
     constructor <;> ring
+
+/-- **ibaKs_const**: the closed form `ibaKsConst` used by the static-limit theorems *is* what `compute_ks` (Romberg on the 65 cosines)
+    returns when the spectrum takes one value on the sample points: the 65-point rule integrates `c (1 + μ²)` exactly (`romb6_quadratic`) -/
+theorem ibaKs_const (ft : ℝ → ℝ) (ft0 coeff k0 : ℝ) (e : Cx ℝ)
+    (h : ∀ n, n ≤ 64 → ft (2.0 * k0 * Transc.sqrt ((1.0 - (Em.muGrid n : ℝ)) / 2.0) * Em.cabs (Em.csq e)) = ft0) :
+    Em.ibaKs ft coeff k0 e = ibaKsConst coeff ft0 := by
+  unfold Em.ibaKs ibaKsConst
+  have hc := Em.romb_congr 6 (fun i => Em.ibaKsIntegrand ft coeff k0 e (Em.muGrid i))
+    (fun n => coeff * ft0 * 2 + (-(coeff * ft0) / 16) * (n : ℝ) + (coeff * ft0 / 1024) * ((n : ℝ) * (n : ℝ))) (Em.muGrid 0 - Em.muGrid 1) (by
+      intro n hn
+      have hn' : n ≤ 64 := by simpa using hn
+      simp only [Em.ibaKsIntegrand, h n hn']
+      unfold Em.muGrid
+      norm_num
+      ring)
+  rw [hc, Em.romb6_quadratic]
+  unfold Em.muGrid
+  norm_num
+  ring
+
+example : Em.ibaKs (fun _ => (3 : ℝ)) 2 100 ⟨1.5, 0⟩ = ibaKsConst 2 3 := ibaKs_const _ 3 2 100 _ (fun _ _ => rfl)
 
 /-! ### power laws -/
 
